@@ -546,7 +546,10 @@ Fixpoint update_task_state_fuel (fuel : nat) (t : string) (route : nat) (evt : e
             (* remove task from staging if task is not with items *)
             (match staged0 with
              | Some s => match s_items s with
-                         | None => modws (fun w => ws_remove_staged_task w t route)
+                         | None => match evt with
+                                   | EvItem _ _ _ _ => ret tt   (* late item report for a re-staged retry *)
+                                   | _ => modws (fun w => ws_remove_staged_task w t route)
+                                   end
                          | Some _ => ret tt
                          end
              | None => ret tt
@@ -555,7 +558,7 @@ Fixpoint update_task_state_fuel (fuel : nat) (t : string) (route : nat) (evt : e
             (match staged0, evt with
              | Some s, EvItem item st _ _ =>
                  match s_items s with
-                 | None => raise (exn_key "items")
+                 | None => ret tt
                  | Some its =>
                      if Nat.ltb item (length its) then
                        modws (fun w => ws_set_staged w
